@@ -713,7 +713,7 @@ func c15Run(c *Ctx) {
 
 func init() {
 	addCheck(&Check{Flows: []flowOracle{flowPinned}, ID: "C15", Level: "model_checking", Collapse: true,
-		Rule:   "explicit-state BFS by replay on the VIRTUAL clock (dialogTimeout 10 s through YAML, through DEFAULT_DIALOG_TIMEOUT and through the real main()): events {establishing 200 with Expires none/5/30/2147483647/080 (repeatable), probe = 4 consecutive in-dialog requests, BYE answered 200/481/603(/503/302), NOTIFY active/terminated/terminated;reason (don't-care), clock steps 1/5/6/9.998/11/31 s, unrelated request with Expires none/2147483647}, and a plan with dialogTimeout 40 s over {establishing 200 with Expires none/5, re-INVITE answered 488/401, probe, BYE, clock steps 1/6/33/35/41 s, unrelated request} to depth 4 (thorough 6; thorough also a rejected re-INVITE among the 10 s events); one dialog to depth 5 (thorough 6), two dialogs to depth 4 (5); oracle: pinned before min(t_i+max(T,Expires_i)), load-balanced after max(...) or after termination, don't-care in between and within 1 ms of an expiry; table invariant after every traffic event: no entry whose expiry AND the start of the current run of traffic (gaps <= T/2) both lie more than 2T back; plus long runs pinning 200 dialogs (one poisoned by a huge Expires) and 6000 (thorough 30000) dialogs followed by 35 s of traffic ticks (once after a quiet spell of 33 s without any traffic), and two long runs (200 and 1000 dialogs) whose population expires together and is partly re-established while the purge is under way; non-trivial = history longer than two events",
+		Rule:   "explicit-state BFS by replay on the VIRTUAL clock (dialogTimeout 10 s through YAML, through DEFAULT_DIALOG_TIMEOUT and through the real main()): events {establishing 200 with Expires none/5/30/2147483647/080 (repeatable), probe = 4 consecutive in-dialog requests, BYE answered 200/481/603(/503/302), NOTIFY active/terminated/terminated;reason (don't-care), clock steps 1/5/6/9.998/11/31 s, unrelated request with Expires none/2147483647}, and a plan with dialogTimeout 40 s over {establishing 200 with Expires none/5, re-INVITE answered 488/401, probe, BYE, clock steps 1/6/33/35/41 s, unrelated request} to depth 4 (thorough 6; thorough also a rejected re-INVITE among the 10 s events); one dialog to depth 5 (thorough 6), two dialogs to depth 4 (5); oracle: pinned before min(t_i+max(T,Expires_i)), load-balanced after max(...) or after termination, don't-care in between and within 1 ms of an expiry; table invariant after every traffic event: no entry whose expiry AND the start of the current run of traffic (gaps <= T/2) both lie more than 2T back; plus long runs pinning 200 dialogs (one poisoned by a huge Expires) and 6000 (thorough 30000) dialogs followed by 35 s of traffic ticks (once after a quiet spell of 33 s without any traffic), and two long runs (200 and 1000 dialogs) whose population expires together and is partly re-established while the purge is under way; plus the answer to a BYE that cannot be delivered (TCP caller closed / reset its connection, nothing listens on the announced port): the identifiers are load-balanced afterwards; non-trivial = history longer than two events",
 		Assume: []string{"real-time expiry on the real binary is not replayed: a wall-clock oracle at the scale of seconds alarms falsely under load (DESIGN.md §2.8)", "consecutive clock steps are explored in non-decreasing order only (they commute)"},
 		Run:    c15Run,
 		Replay: func(c *Ctx, raw json.RawMessage) string {
